@@ -114,6 +114,9 @@ func compRender(it c01.Item, pos int) []byte {
 }
 
 func doComp(e *c01.Emitter, codes []string, fault string, class string) {
+	if c01.Aborted() {
+		return
+	}
 	var script []c01.Item
 	for _, c := range codes {
 		script = append(script, compItem(c))
